@@ -140,7 +140,9 @@ fn run(eng: &Engine, a: &Args) {
     }
     let mut fixed = vec![Case { chain: reg, start_sel: None, end_sel: None }];
     // regression input of the repaired subsidy shift (known_findings.json, fixed: C15): heights around 64 and 65 halvings
-    for base in [13_439_998u64, 13_650_000] {
+    // ... and heights whose halving count no longer fits 32 bits (no node stores such heights, the index format and the
+    // tool's u64 do): 2^32, 2^32 + 1 and 2^32 + 33 halvings - the subsidy is zero there, not 50 coins >> (count mod 2^32)
+    for base in [13_439_998u64, 13_650_000, 210_000 * (1u64 << 32) - 2, 210_000 * ((1u64 << 32) + 1) - 1, 210_000 * ((1u64 << 32) + 33)] {
         let scripts: Vec<Vec<u8>> = (0..4).map(|i| vec![0x51 + i as u8]).collect();
         fixed.push(Case { chain: vpmodel::spec::chain_from_scripts(vpmodel::chain::Coin::Dogecoin, &scripts, &[3, 1000], 1, 1, base, 1_700_000_000), start_sel: None, end_sel: None });
     }
